@@ -94,3 +94,18 @@ GHOST = {}
 def ghost(name, *args):
     """native meaning of a ghost function: supplied by the replay harness"""
     return GHOST[name](*args)
+
+
+def ghost_pred(name, *args):
+    """native meaning of a ghost predicate (bool result): supplied by the replay harness"""
+    return bool(GHOST[name](*args))
+
+
+KEY_UNIVERSE = []
+"""finite universe of keys for the native meaning of `forall_keys`: the replay harness fills it with
+every key occurring in the inputs plus a few extra"""
+
+
+def forall_keys(kname, fn):
+    """for all keys k of class `kname`: fn(k).  Symbolic: a z3 quantifier over the key sort."""
+    return all(fn(k) for k in list(KEY_UNIVERSE) if any(c.__name__ == kname for c in type(k).__mro__))
